@@ -28,6 +28,8 @@ pub struct Runner {
     pub oracle_checks: u64,
     pub policy_limit: Option<u64>,
     pub extra: String,
+    pub cap_reported: bool,
+    pub panics_seen: u64,
 }
 
 fn fnv(sig: &[(u8, u16)]) -> u64 {
@@ -64,6 +66,8 @@ impl Runner {
             oracle_checks: 0,
             policy_limit: None,
             extra: String::new(),
+            cap_reported: false,
+            panics_seen: 0,
         }
     }
 
@@ -96,6 +100,7 @@ impl Runner {
                 self.oracle = Oracle::new();
                 self.now = 0;
                 self.prog_start.push(lineno);
+                self.cap_reported = false;
                 "ok".to_string()
             }
             ["now", t] => {
@@ -116,7 +121,18 @@ impl Runner {
             }
             ["dec", hx] => {
                 let b = wire::unhex(hx).unwrap();
-                self.sut.dec(&b)
+                let o = self.sut.dec(&b);
+                // C10 memory clause: the connection buffer never exceeds max(initial capacity, item limit) + 64
+                let bound = 4096usize.max(self.limit as usize) + 64;
+                if self.sut.max_cap > bound && !self.cap_reported {
+                    self.cap_reported = true;
+                    self.oracle.violations.push(oracle::Violation {
+                        props: vec!["C10"],
+                        line: lineno,
+                        msg: format!("connection buffer capacity reached {} bytes under an item limit of {} (bound {}), {} bytes buffered", self.sut.max_cap, self.limit, bound, self.sut.cbuf.len()),
+                    });
+                }
+                o
             }
             ["codec"] => {
                 self.sut.reset_codec();
@@ -134,6 +150,15 @@ impl Runner {
             ["fin"] => self.sut.fin(),
             _ => "bad-op".to_string(),
         };
+        // a panic anywhere in the process (server tasks included) since the last line
+        let pc = crate::sut::PANICS.load(std::sync::atomic::Ordering::SeqCst);
+        if pc > self.panics_seen {
+            self.panics_seen = pc;
+            if !out.starts_with("panic") && !out.contains(" P:") {
+                let msg = crate::sut::LAST_PANIC.lock().unwrap().clone();
+                self.oracle.violations.push(oracle::Violation { props: vec!["C10"], line: lineno, msg: format!("panic while processing '{}': {}", &line[..line.len().min(60)], msg) });
+            }
+        }
         self.ops.push(line.to_string());
         self.outs.push(out.clone());
         out
